@@ -61,6 +61,8 @@ def apply_op(ds, op, aux=None, args=None):
     spec = _target(ds, via)
     args = args or {}
     wsrc = aux if aux is not None else ds
+    if op.get("scalar_winds"):
+        wsrc = {"wspd": 12.5, "wdir": 215.0, "dpt": 35.0}   # plain floats instead of DataArrays
     if m in SIMPLE_STATS or m in ("momf", "celerity", "wavelen"):
         return getattr(spec, m)(**kw)
     if m == "momd":
@@ -179,7 +181,8 @@ def gen_op(rng, recipe, pool="all"):
         chosen = rng.sample(names, min(k, len(names)))
         kw = {}
         if rng.random() < 0.5:
-            kw["fmin"] = float(np.round(freqs[0] + 0.3 * (freqs[1] - freqs[0]), 5)) if rng.random() < 0.5 else float(freqs[min(1, nf - 1)])
+            f1 = freqs[min(1, nf - 1)]
+            kw["fmin"] = float(np.round(freqs[0] + 0.3 * (f1 - freqs[0]), 5)) if rng.random() < 0.5 else float(f1)
         if rng.random() < 0.4:
             kw["fmax"] = fmid
         if has_dir and rng.random() < 0.3:
@@ -245,10 +248,10 @@ def gen_op(rng, recipe, pool="all"):
             kw["swells"] = n
             if rng.random() < 0.3:
                 kw["agefac"] = 1.5
-        return {"m": m, "via": via, "kw": kw}
+        return {"m": m, "via": via, "kw": kw, "scalar_winds": m != "ptm3" and rng.random() < 0.1}
     if g == "ptm45":
         if rng.random() < 0.5:
-            return {"m": "ptm4", "via": via, "kw": {"agefac": rng.choice([1.7, 1.2])}}
+            return {"m": "ptm4", "via": via, "kw": {"agefac": rng.choice([1.7, 1.2])}, "scalar_winds": rng.random() < 0.1}
         fcut = fmid if rng.random() < 0.6 else float(freqs[nf // 2])
         return {"m": "ptm5", "via": via, "kw": {"fcut": fcut, "interpolate": rng.random() < 0.6}}
     if g == "bbox":
@@ -271,4 +274,4 @@ def op_label(op):
     extra = ""
     if op["m"] == "stats":
         extra = "[" + ",".join(op["stats"]) + "]"
-    return f"{op['m']}{extra}({kws})"
+    return f"{op['m']}{extra}({kws}){'[scalar-winds]' if op.get('scalar_winds') else ''}"
